@@ -337,11 +337,14 @@ pub fn workers_exit(rounds: u64) -> LiveResult {
         let base = thread_count();
         let c = build(1000, 8, 0, 0);
         let c2 = c.clone();
-        for i in 0..10u64 {
-            let _ = c.insert(mk_key(i, 0), i, 1);
+        let closing = r % 2 == 0;
+        // a handle dropped while the processor is still busy: the workers find their channels
+        // disconnected in the middle of the work, not when idle
+        let burst = if closing || r % 4 == 1 { 10u64 } else { 4000 };
+        for i in 0..burst {
+            let _ = c.insert(mk_key(i % 50, 0), i, 1);
         }
         let with_workers = thread_count();
-        let closing = r % 2 == 0;
         if closing {
             let _ = c.close();
         }
